@@ -472,6 +472,14 @@ impl From<Xstr> for Cell {
 //@use encode.fns ::zero85_encode
 //@use encode.fns ::zero85_decode_res
 //@use encode.fns ::zero85_decode
+//@use encode.fns ::load#w_base32
+//@use encode.fns ::load#w_base32_to
+//@use encode.fns ::load#w_base32hex
+//@use encode.fns ::load#w_base32hex_to
+//@use encode.fns ::load#w_base64
+//@use encode.fns ::load#w_base64_to
+//@use encode.fns ::load#w_zero85
+//@use encode.fns ::load#w_zero85_to
 
 // C18, the four pairs: encode then decode gives back the bytes (lemmas over the word contracts + the ASSUMED crate law)
 fn lemma_base32_pair(xs: &mut State)
